@@ -1,5 +1,6 @@
 """C16 - combinators obey their algebraic laws (both sides observed on the implementation)."""
 import json
+import common
 import random
 import warnings
 
@@ -12,6 +13,7 @@ from canon import canon, outcome, run_stream
 
 
 def observe(ds, n_hint):
+    common.gc_point()
     r = {'iter': run_stream(lambda: ds)}
     r['len'] = outcome(lambda: len(ds))
     r['keys'] = outcome(lambda: list(ds.keys()))
